@@ -193,7 +193,7 @@ def _gen_joint(rng, n, mode):
                     break
         yield {"joint": True, "names": names, "masters": [[glyphs[g][k] for g in names] for k in range(nm)],
                "dflt": rng.randrange(nm), "reverseDirection": rng.random() < 0.6, "lib": rng.choice(["ufoLib2", "defcon"]),
-               "bad": bad}
+               "bad": bad, "direct": i % 3 == 2 and bad is None}   # incompatible masters are rejected up-front by fonts_to_quadratic
 
 
 def gen(rng, n, mode):
@@ -294,9 +294,41 @@ def _run_joint(case):
         src.name, src.familyName, src.styleName, src.location = "master%d" % k, "C02 Joint", "M%d" % k, {"Weight": locs[k]}
         ds.addSource(src)
     out = []
+    direct = bool(case.get("direct"))
+    # "direct" sub-stream: the default options (convertCubics=True: fonts_to_quadratic re-draws every glyph through segment
+    # pens); the masters the joint drop starts from are then taken from the implementation itself, compiled by
+    # compileInterpolatableTTFsFromDS (unrounded floats, nothing dropped) from an identical designspace
+    kw = {"useProductionNames": False, "reverseDirection": case["reverseDirection"]}
+    if not direct:
+        kw["convertCubics"] = False
+    dmasters = None
     try:
-        tt = ufo2ft.compileVariableTTF(ds, dropImpliedOnCurves=True, convertCubics=False, reverseDirection=case["reverseDirection"],
-                                       useProductionNames=False)
+        if direct:
+            ds2 = DesignSpaceDocument()
+            ds2.addAxis(ax)
+            for k, s0 in enumerate(ds.sources):
+                s2 = SourceDescriptor()
+                fd = {"upm": 1000, "info": {"familyName": "C02 Joint", "styleName": "M%d" % k}, "lib": {},
+                      "glyphs": [{"name": n, "width": 500, "unicodes": [], "contours": masters[k][gi], "components": [], "anchors": []}
+                                 for gi, n in enumerate(names)]}
+                s2.font = build(fd, case["lib"])
+                s2.name, s2.familyName, s2.styleName, s2.location = s0.name, s0.familyName, s0.styleName, dict(s0.location)
+                ds2.addSource(s2)
+            mds = ufo2ft.compileInterpolatableTTFsFromDS(ds2, **kw)
+            dmasters = []
+            for s2 in mds.sources:
+                glyf = s2.font["glyf"]
+                per = []
+                for n in names:
+                    g = glyf[n]
+                    cs, start = [], 0
+                    if g.numberOfContours > 0:
+                        for e in g.endPtsOfContours:
+                            cs.append([[rat(g.coordinates[j][0]), rat(g.coordinates[j][1]), bool(g.flags[j] & 1)] for j in range(start, e + 1)])
+                            start = e + 1
+                    per.append(cs)
+                dmasters.append(per)
+        tt = ufo2ft.compileVariableTTF(ds, dropImpliedOnCurves=True, **kw)
         buf = io.BytesIO(); tt.save(buf); buf.seek(0)
         tt = TTFont(buf)
         err = None
@@ -308,12 +340,15 @@ def _run_joint(case):
         else:
             var = tt["gvar"].variations.get(n, []) if "gvar" in tt else []
             obs = {"err": None, "contours": _glyf_contours(tt, n), "gvar": [len(v.coordinates) for v in var]}
-        inp = {"masters": [[[[rat(x), rat(y), t] for x, y, t in c] for c in masters[k][gi]] for k in range(nm)],
-               "dflt": dflt, "convertCubics": False, "reverseDirection": case["reverseDirection"]}
+        if direct and dmasters is not None:
+            inp = {"masters": [dmasters[k][gi] for k in range(nm)], "dflt": dflt, "direct": True}
+        else:
+            inp = {"masters": [[[[rat(x), rat(y), t] for x, y, t in c] for c in masters[k][gi]] for k in range(nm)],
+                   "dflt": dflt, "convertCubics": False, "reverseDirection": case["reverseDirection"]}
         isbad = bool(case.get("bad")) and case["bad"][0] == n
         npts_src = sum(len(c) for c in masters[dflt][gi])
         npts_obs = sum(len(c) for c in obs.get("contours", [])) if obs.get("err") is None else npts_src
-        tags = ["joint", "masters:%d" % nm, "rev:%s" % case["reverseDirection"], case["lib"], "err:" + str(obs.get("err")),
+        tags = ["joint", "joint-direct" if direct else "joint-source", "masters:%d" % nm, "rev:%s" % case["reverseDirection"], case["lib"], "err:" + str(obs.get("err")),
                 "dropped" if npts_obs < npts_src else "nodrop"] + (["incompatible"] if isbad else [])
         out.append({"op": "joint", "in": inp, "obs": obs, "tags": tags, "nontrivial": npts_obs < npts_src})
     return out
